@@ -295,6 +295,12 @@ def run(ctx):
     for day in (datetime.date(1900, 3, 1), datetime.date(1999, 12, 31), datetime.date(2000, 2, 29), datetime.date(2024, 2, 29), datetime.date(9999, 12, 31)):
         for clock in (datetime.time(0, 0, 1), datetime.time(0, 0, 59), datetime.time(11, 59, 59), datetime.time(12, 0, 0), datetime.time(23, 59, 59), datetime.time(0, 0, 0)):
             boundary.append(("d", datetime.datetime.combine(day, clock)))
+    # date-times across the whole range of serial numbers: rounding of the day fraction depends on the magnitude of the serial
+    years = list(range(1901, 10000, 37 if quick else 3))
+    clocks = [datetime.time(7, 7, 7), datetime.time(13, 14, 15), datetime.time(23, 59, 59), datetime.time(0, 0, 1), datetime.time(11, 11, 11), datetime.time(17, 30, 29), datetime.time(5, 59, 58)]
+    for index, year in enumerate(years):
+        for clock in clocks:
+            boundary.append(("d", datetime.datetime.combine(datetime.date(year, 1 + index % 12, 1 + index % 28), clock)))
     jobs.append(("date+time", boundary))
     ctx.pmap(MOD, "cells_job", jobs, label="C16 cells")
     misc = []
